@@ -161,6 +161,17 @@ impl Profile {
     }
 }
 
+/// A `TxPlan::kind` byte that the builder maps to transaction kind `want` under profile `p` (searching from `salt`).
+pub fn kind_byte(p: &Profile, want: usize, salt: u8) -> u8 {
+    for d in 0..=255u8 {
+        let k = salt.wrapping_add(d);
+        if weighted(&p.kind_w, k as u32 * 13 + 5) == want {
+            return k;
+        }
+    }
+    salt
+}
+
 fn weighted(w: &[u32], x: u32) -> usize {
     let total: u32 = w.iter().sum();
     if total == 0 {
@@ -1498,7 +1509,7 @@ pub fn run_plan(plan: &Plan, profile: &Profile, mon: &mut dyn Monitor, st: &mut 
     if profile.low_dosc_start && plan.cfg.fee_pool % 3 == 0 {
         if let Outcome::Ok(s0) = w.seal(None) {
             let mut blk = s0.to_block();
-            blk.header.dosc_speed = if plan.cfg.val % 2 == 0 { 10 } else { 5_000 };
+            blk.header.dosc_speed = [10, 5_000, 3_000_000_011, 10_000_000_000_019][plan.cfg.val as usize % 4];
             let r = Sealed::from_block(&blk, &s0.raw_stakes(), &w.db);
             let hd = r.header();
             w.headers.insert(hd.height.0, hd);
